@@ -302,6 +302,19 @@ def main(argv):
             rc = 1
         elif rcode != 0:
             errors.append(("bounded:" + bname, "bounded check crashed (rc=%s)" % rcode, out[-400:]))
+    # XV (thorough tier): the encoder itself against CPython on the corpus xv/snippets.py - a disagreement is a checker error (the verifier is
+    # wrong about Python), never a property violation
+    xv_ev = None
+    if args.tier == "thorough" and not args.units:
+        try:
+            xr = subprocess.run([sys.executable, os.path.join(ROOT, "xv", "run.py")], capture_output=True, text=True, timeout=600)
+            xv_ev = json.loads([l for l in xr.stdout.splitlines() if l.startswith("{")][0])
+            xv_ev["rc"] = xr.returncode
+            if xr.returncode != 0:
+                errors.append(("xv", "the encoder disagrees with CPython on %s of %s concrete cases of xv/snippets.py" % (xv_ev.get("disagree"), xv_ev.get("cases")),
+                               "\n".join(l for l in xr.stdout.splitlines() if l.startswith("DISAGREE"))[:1500]))
+        except Exception as e:      # noqa
+            errors.append(("xv", "cross-check crashed: %r" % (e,), ""))
     # vacuity guard per obligation: every obligation discharged on the committed tree (baseline/<prop>.json) must be GENERATED again.
     # One that is not (its clause depends on an event or a branch that is no longer there) cannot be decided on this tree: undecided.
     all_ids = set(["%s # %s" % (r["unit"], ob["name"]) for r in results for ob in r.get("obligations", []) if has_prop(reg, ob.get("props") or r["props"], prop)])
@@ -342,6 +355,7 @@ def main(argv):
             "functions_executed_inline": sorted(set(q for r in results for q in (r.get("executed") or [])) - set(functions)),
             "samples": samples,
             "bounded_stand_ins": bounded_ev,
+            "encoder_cross_check_against_cpython": xv_ev,
             "replays_run": replay_ev,
             "known_findings_reported": [{"obligation": oid, "what": f["what"]} for oid, f in known],
             "refuted": [oid for oid, _, _ in violations],
